@@ -19,6 +19,18 @@ def expectedMapKeyKinds : List String :=
   ["reflect.String", "reflect.Int", "reflect.Int8", "reflect.Int16", "reflect.Int32", "reflect.Int64", "reflect.Uint",
    "reflect.Uint8", "reflect.Uint16", "reflect.Uint32", "reflect.Uint64", "reflect.Float64", "reflect.Float32"]
 
+/-- The guards the mechanism model transcribes (Model.lean `putIdxArr`, `swap`; Gateway/Bridge notes): the leading `if`
+    of each function as it stands in the current source.  Dropping or changing one of them (e.g. reverting fix
+    1c31366 / 60ad8ae / ab07c10 / e4f4687) breaks this equality. -/
+def expectedGuards : List String :=
+  ["objectGoArrayReflect._putIdx: idx >= o.fieldsValue.Len()",
+   "objectGoArrayReflect.swap: n := o.fieldsValue.Len(); i >= n || j >= n",
+   "objectGoSlice.swap: n := len(*o.data); i >= n || j >= n",
+   "Runtime.wrapReflectFunc.closure: value.IsNil()",
+   "argumentsObject.exportType: present"]
+
+theorem guards_ok : guards = expectedGuards := by decide
+
 theorem toValue_type_cases_ok : toValueTypeCases = expectedTypeCases := by decide
 theorem toValue_kind_cases_ok : toValueKindCases = expectedKindCases := by decide
 theorem toValue_map_key_kinds_ok : toValueMapKeyKinds = expectedMapKeyKinds := by decide
